@@ -1852,90 +1852,92 @@ func namespaceAlwaysPrepended(c *Check, a *Anchors) {
 		c.Errorf("namespace-always-prepended: Tasks.Merge not found")
 		return
 	}
-	minfo := merge.Info()
-	var helper *FuncBody
-	var mergeCalls []*ast.CallExpr
-	for _, g := range mergeGroup(c, merge) {
-		mergeCalls = append(mergeCalls, callsIn(g, true)...)
+	// every (string, string) string function of the package that the merge group calls with Include.Namespace is judged
+	type site struct {
+		info *types.Info
+		call *ast.CallExpr
 	}
-	for _, call := range mergeCalls {
-		fn, ok := callee(minfo, call).(*types.Func)
-		if !ok || fn.Pkg() == nil || fn.Pkg().Path() != PkgAst {
+	var sites []site
+	for _, g := range mergeGroup(c, merge) {
+		for _, call := range callsIn(g, true) {
+			sites = append(sites, site{g.Info(), call})
+		}
+	}
+	helpers := map[*FuncBody]int{} // helper -> index of the namespace parameter
+	var order []*FuncBody
+	for _, st := range sites {
+		fn, ok := callee(st.info, st.call).(*types.Func)
+		if !ok || fn.Pkg() == nil || fn.Pkg().Path() != PkgAst || len(st.call.Args) != 2 {
 			continue
 		}
-		for _, arg := range call.Args {
-			if fieldOrLocalOf(c.P, minfo, arg, PkgAst, "Include", "Namespace") {
-				if d := c.P.DeclOf(fn); d != nil && d.Type.Results != nil && d.Type.Results.NumFields() == 1 {
-					if tv, ok := minfo.Types[d.Type.Results.List[0].Type]; ok && types.TypeString(tv.Type, nil) == "string" && len(call.Args) == 2 {
-						helper = d
-					}
+		d := c.P.DeclOf(fn)
+		if d == nil || d.Decl == nil || d.Type.Results == nil || d.Type.Results.NumFields() != 1 {
+			continue
+		}
+		sig := fn.Type().(*types.Signature)
+		if types.TypeString(sig.Results().At(0).Type(), nil) != "string" {
+			continue
+		}
+		for i, arg := range st.call.Args {
+			if fieldOrLocalOf(c.P, st.info, arg, PkgAst, "Include", "Namespace") {
+				if _, seen := helpers[d]; !seen {
+					order = append(order, d)
 				}
+				helpers[d] = i
 			}
 		}
 	}
-	if helper == nil {
+	if len(order) == 0 {
 		c.Errorf("namespace-always-prepended: no helper of taskfile/ast receives Include.Namespace in Tasks.Merge")
 		return
 	}
-	c.Fn(helper)
-	info := helper.Info()
-	var params []*types.Var
-	for _, fld := range helper.Type.Params.List {
-		for _, id := range fld.Names {
-			if v, ok := info.Defs[id].(*types.Var); ok {
-				params = append(params, v)
-			}
-		}
-	}
-	if len(params) != 2 {
-		c.Errorf("namespace-always-prepended: helper %s does not have (name, namespace) parameters", fnDisplay(helper))
-		return
-	}
-	// which parameter is the namespace: the one bound to Include.Namespace at the call sites
-	nsIdx := -1
-	for _, call := range mergeCalls {
-		if a.is(callee(minfo, call), helper) {
-			for i, arg := range call.Args {
-				if fieldOrLocalOf(c.P, minfo, arg, PkgAst, "Include", "Namespace") {
-					nsIdx = i
-				}
-			}
-		}
-	}
-	if nsIdx < 0 {
-		c.Errorf("namespace-always-prepended: namespace parameter not identified")
-		return
-	}
-	ns, name := params[nsIdx], params[1-nsIdx]
-	mentions := func(e ast.Expr, v *types.Var, depth int) bool {
-		return mentionsVia(info, helper.Body, e, v, depth)
-	}
-	pm := parentMap(helper.Body)
 	n := 0
 	ord := map[string]int{}
-	for _, r := range returnsOf(helper.Body) {
-		if len(r.Results) != 1 {
-			continue
-		}
-		n++
-		res := r.Results[0]
-		// is this return governed by "the name starts with the separator"
-		root := false
-		for p := pm[ast.Node(r)]; p != nil; p = pm[p] {
-			if ifs, ok := p.(*ast.IfStmt); ok && within(r, ifs.Body) {
-				if x, pfx, _, ok := prefixTest(info, ifs); ok && varOf(info, x) == name && constIs(info, pfx, `":"`) {
-					root = true
+	for _, helper := range order {
+		nsIdx := helpers[helper]
+		c.Fn(helper)
+		info := helper.Info()
+		var params []*types.Var
+		for _, fld := range helper.Type.Params.List {
+			for _, id := range fld.Names {
+				if v, ok := info.Defs[id].(*types.Var); ok {
+					params = append(params, v)
 				}
 			}
 		}
-		key := ordinal(ord, "return@"+fnDisplay(helper))
-		if root {
-			c.OK("namespace-always-prepended", key, r.Pos(), "root-reference branch")
+		if len(params) != 2 {
+			c.Errorf("namespace-always-prepended: helper %s does not have (name, namespace) parameters", fnDisplay(helper))
 			continue
 		}
-		both := mentions(res, ns, 2) && mentions(res, name, 2)
-		c.Decide(both, "namespace-always-prepended", key, r.Pos(), "built from the namespace and the name",
-			"outside the root-reference branch the helper returns `"+exprStr(res)+"`, which is not built from both the namespace and the name: some names of an included Taskfile are registered (or referenced) without their namespace")
+		ns, name := params[nsIdx], params[1-nsIdx]
+		mentions := func(e ast.Expr, v *types.Var, depth int) bool {
+			return mentionsVia(info, helper.Body, e, v, depth)
+		}
+		pm := parentMap(helper.Body)
+		for _, r := range returnsOf(helper.Body) {
+			if len(r.Results) != 1 {
+				continue
+			}
+			n++
+			res := r.Results[0]
+			// is this return governed by "the name starts with the separator"
+			root := false
+			for p := pm[ast.Node(r)]; p != nil; p = pm[p] {
+				if ifs, ok := p.(*ast.IfStmt); ok && within(r, ifs.Body) {
+					if x, pfx, _, ok := prefixTest(info, ifs); ok && varOf(info, x) == name && constIs(info, pfx, `":"`) {
+						root = true
+					}
+				}
+			}
+			key := ordinal(ord, "return@"+fnDisplay(helper))
+			if root {
+				c.OK("namespace-always-prepended", key, r.Pos(), "root-reference branch")
+				continue
+			}
+			both := mentions(res, ns, 2) && mentions(res, name, 2)
+			c.Decide(both, "namespace-always-prepended", key, r.Pos(), "built from the namespace and the name",
+				"outside the root-reference branch the helper returns `"+exprStr(res)+"`, which is not built from both the namespace and the name: some names of an included Taskfile are registered (or referenced) without their namespace — a dependency or task call written with such a name is bound to a task of another file (or to none)")
+		}
 	}
 	c.Floor("namespace-always-prepended", n, 2)
 }
